@@ -576,7 +576,9 @@ func builtinAppend(args ...Object) (Object, error) {
 	case *Array:
 		return &Array{Value: append(arg.Value, args[1:]...)}, nil
 	case *ImmutableArray:
-		return &Array{Value: append(arg.Value, args[1:]...)}, nil
+		elems := make([]Object, 0, len(arg.Value)+len(args)-1)
+		elems = append(elems, arg.Value...)
+		return &Array{Value: append(elems, args[1:]...)}, nil
 	default:
 		return nil, ErrInvalidArgumentType{
 			Name:     "first",
